@@ -1,44 +1,75 @@
 CHECK = {
     "lean_module": "MidnightZK.Props.C03",
     "harness": "h-c03",
-    "translators": ["c03_consts"],
+    "translators": ["c03_consts", "c03_sites"],
     "level": "proof",
     "technique": "Lean 4 proofs of the binding structure: (1) verifier schedule (instance absorption injective, every element precedes a challenge, exact proof length, "
                  "canonical scalar decoding); (2) element-by-element model of what the BLAKE2b and the Poseidon transcript hash absorb (prefix bytes / queue+length padding, "
                  "32-byte scalars, 48-byte compressed points, 2x7 limbs with identity flag) with injectivity theorems for a fixed schedule, injectivity of proof parsing for a "
-                 "canonical point decoder (instantiated with C16's model of G1Affine::from_compressed); (3) root-counting theorem (Mathlib polynomials) binding a plain instance "
-                 "column through its Lagrange evaluation at x; (4) model of the buffer hashed into VerifyingKey::transcript_repr with an injectivity theorem and a field-coverage "
-                 "theorem over lists regenerated from the Rust sources; + exhaustive single-element mutation sweep of real proofs/statements/keys",
+                 "canonical point decoder, instantiated at full strength with C16's model of G1Affine::from_compressed (the side condition 'no point with y = 0' is now a theorem: "
+                 "the decoder's subgroup check [r]P = O fails on (x, 0) because r is odd - loop invariant of the model's double-and-add, no number theory); "
+                 "(3) root-counting theorem (Mathlib polynomials) binding a plain instance column through its Lagrange evaluation at x, now also proved for the EXECUTABLE "
+                 "natural-number function C02.instanceEvals (cast to ZMod p it is the field-level instEval; binding transported); "
+                 "(4) model of the buffer hashed into VerifyingKey::transcript_repr with an injectivity theorem and a field-coverage theorem over lists regenerated from the Rust "
+                 "sources, plus a field-by-field model of what Debug for PinnedConstraintSystem prints (order regenerated) with the theorem that equal printed fields give equal "
+                 "constraint-system views EXCEPT the phase of unqueried advice columns when there is no challenge, and the counterexample; "
+                 "(5) model of the verification entry points at the parsing level (BlstPLONK::verify, zk_stdlib::batch_verify) whose exhaustion check is taken from the "
+                 "regenerated list of assert_empty call sites (receiver, prepared transcript, position, conditionality), with batch_accepted_length / batch_parse_iff; "
+                 "+ mutation sweep of real proofs/statements/keys through every entry point",
     "rule": "real proofs of family members (1-2 proofs each, both transcript hashes) x every proof element x {other valid value, invalid encoding, non-canonical scalar, flag bit} "
+            "+ EVERY byte position of one proof per transcript hash XOR a seeded non-zero mask (byte_cover; positions covered = proof length, recorded in the evidence) "
             "+ bit flips (sampled in quick, all in thorough) + trailing/truncated bytes + every public-input edit class "
             "(value, permutation, drop, append zero, move between columns, drop/extra column, committed instance, swap proofs) "
             "+ wrong vk (other k / other circuit / other fixed content) + one vk component changed at a time through VerifyingKey::from_bytes (k byte, each fixed / permutation "
             "commitment replaced or swapped with its neighbour, constraint system of other circuit parameters) + other transcript hash; "
+            "ENTRY POINTS (entry.rs, real zk_stdlib relations, both hashes): prepare+assert_empty+verify, zk_stdlib::verify, zk_stdlib::batch_verify on the singleton batch and with "
+            "the mutant at each position of a batch of three, Guard::batch_verify on three guards x {trailing 1/7/48/copy of last element, truncation 1/element/half/empty, element "
+            "substitutions (every third element in quick, all otherwise), public-input value/permutation/drop/append-zero/extend/empty/of-other-member, committed instance, proof of "
+            "another statement, key of another relation / of the same relation with another constant, other transcript hash}: all entry points must accept the honest statements "
+            "and reject every mutant; "
+            "MINI circuit (mini.rs): key variants differing in one selector row / one copy constraint / one fixed cell / k (repr must differ, proof rejected), public-input edits "
+            "across the two columns (swap, move, extend, truncate), zero-padding moved between columns, exhaustive search over 142 small public-input tables for two that the real "
+            "prepare absorbs identically, and the advice-phase experiment (two circuits with equal transcript_repr: see level_note); "
             "correspondence lines: proof layout, instance stream, scalar decoder (both readers), point decoder (both readers) on boundary encodings, to_input of points under both hashes, "
             "`absorbed` = the complete framed stream the real hash state absorbed for every real proof (real CircuitTranscript + prepare over a logging hash state; framing re-derived by "
             "an independent BLAKE2b state / sponge that must reproduce every squeeze output) vs the model's stream computed from the statement and the PARSED proof bytes, "
-            "`parse` = parse-level verdict (ok / index of the failing element / trailing bytes) of sampled mutants, `vkinput` = the buffer whose BLAKE2b hash is the key's transcript_repr",
+            "`parse` = parse-level verdict (ok / index of the failing element / trailing bytes) of sampled mutants, `vkinput` = the buffer whose BLAKE2b hash is the key's transcript_repr, "
+            "`verifyparse` / `batchparse` = parsing-level verdict of zk_stdlib::verify / batch_verify (index of the first rejected member found by running batch_verify on the prefixes "
+            "of the batch) vs the model built on the regenerated assert_empty sites, `csdebug` = the real format!(\"{:?}\", cs.pinned()) split into its top-level fields by the harness and, "
+            "independently, by the Lean driver, which checks the field names against the regenerated order list",
     "explanation": "Theorems (Props/C03.lean): instances_injective, schedule_tail, every_element_bound, accepted_length, decode_canonical, decode_rejects_noncanonical (first round); "
                    "absorbed_stream_injective (+_any, _poseidon), changed_value_changes_stream, statement_injective, proof_parse_injective (generic over a canonical point decoder), "
-                   "proof_parse_injective_g1_partial (C16 decoder; points with y = 0 excluded), parsed_length, parsed_reencodes, instance_eval_binds (+_lists), "
-                   "instance_eval_pad_invisible, vk_repr_input_injective, vk_repr_covers, blake_framing_constants, poseidon_and_limb_constants. "
+                   "proof_parse_injective_g1_partial (kept) and proof_parse_injective_g1 / parsed_reencodes_g1 (full: decoded_point_no_order2), parsed_length, parsed_reencodes, "
+                   "instance_eval_binds (+_lists), instance_eval_pad_invisible, instance_evals_exec_is_inst_eval, instance_eval_binds_exec, vk_repr_input_injective, vk_repr_covers, "
+                   "csDebugFieldNames_eq, vk_repr_injective_on_verifier_view_partial, vk_repr_gap_exhibited, entry_points_enforce_exhaustion, batch_member_ops_roles, "
+                   "batch_accepted_length, verify_parse_eq, batch_parse_iff, batch_first_bad_none_iff, blake_framing_constants, poseidon_and_limb_constants. "
                    "Tie: every `absorbed` line compares the whole absorbed stream of a real verification with the model's (so a dropped/reordered absorb, a changed prefix, encoding, "
                    "padding or limb layout changes an impl.txt line or makes it MISMATCH); the driver additionally checks on each such line that the values at the absorb events of the "
                    "verifier schedule are the closed form `stmtVals` that statement_injective is about. The correspondence on prefixes/key/padding is deliberately tight (the harness "
-                   "re-derives the framing with its own copy of the constants; the translator re-reads them into Lean as well). "
-                   "Oracle: no mutant is accepted and none panics; a vk component whose change leaves transcript_repr unchanged is reported.",
+                   "re-derives the framing with its own copy of the constants; the translator re-reads them into Lean as well). The assert_empty site theorems fix ROLES (receiver = "
+                   "the transcript initialised from the proof and handed to prepare; after prepare; same block; error propagated), not variable names: renaming a variable or "
+                   "reordering independent statements does not fire, moving the call into an `if`, dropping the `?`, or applying it to another transcript does. "
+                   "Oracle: no mutant is accepted by any entry point and none panics; a vk component whose change leaves transcript_repr unchanged is reported.",
     "trusted_base": ["collision resistance / random-oracle behaviour of the transcript hash (BLAKE2b, Poseidon) is assumed",
                      "KZG binding (C14) assumed",
                      "C16's model of G1Affine::from_compressed (imported; tied to the code by C16's and by this check's `point` lines) and its theorem decode_canonical",
-                     "the Debug renderings of the pinned domain / constraint system are opaque byte strings in the model (their field lists are regenerated and checked, their formatting is not modelled)"],
+                     "the Debug renderings of the individual members of the pinned domain / constraint system (gates, query lists, permutation, lookups ...) are opaque strings in the "
+                     "model: their names and order are regenerated and checked against the real string on every run, the injectivity of their formatting is not modelled",
+                     "C02's theorem instance_eval_is_poly_eval and C01's domain lemmas (imported by the executable-level binding theorem)"],
     "assumptions": ["a changed absorbed stream changes all later challenges (ROM)",
-                    "no point of order two on the BLS12-381 G1 curve (y = 0); carried as the side condition NoOrder2 of the point theorems"],
+                    "primality of the scalar modulus is a hypothesis (Fact p.Prime) of the executable-level instance-evaluation theorems, as in C02"],
     "level_text": "Kernel-checked theorems: the absorbed BLAKE2b byte stream and Poseidon field-element blocks are injective in (vk repr, commitments, public inputs with lengths, proof elements) "
-                  "for a fixed schedule; proof parsing is injective and length-exact; a plain instance column is bound by its evaluation outside <= m-1 points; the transcript_repr hash input "
-                  "is injective in k / commitments / descriptions and covers every verifier-relevant key field. The consequence 'every mutant is rejected' is observed by an "
-                  "exhaustive-per-element sweep on real proofs, not proved (needs ROM + KZG binding)",
-    "level_note": "partial: cryptographic binding (hash ROM, KZG) assumed; points with y = 0 excluded by hypothesis (none exists; unproved); Debug formatting of the pinned constraint system "
-                  "is not modelled (field coverage only: the phase of an advice column that is never queried is not in the key hash when the circuit has no challenge); "
-                  "the link between the field-level instance_eval_binds and the Nat-level executable C02.instanceEvals is by correspondence (C02), not by proof",
+                  "for a fixed schedule; proof parsing is injective and length-exact for the real decoder without side condition (the decoder never returns a point with y = 0); "
+                  "every verification entry point of zk_stdlib (verify, batch_verify) enforces exhaustion of each member's own proof bytes (call sites regenerated from the source); "
+                  "a plain instance column is bound by its evaluation outside <= m-1 points, also at the level of the executable C02.instanceEvals; the transcript_repr hash input "
+                  "is injective in k / commitments / descriptions, and covers every member of the pinned constraint system except the phase of unqueried advice columns of a circuit "
+                  "without challenges (proved, with counterexample). The consequence 'every mutant is rejected by every entry point' is observed by an exhaustive-per-element and "
+                  "per-byte sweep on real proofs, not proved (needs ROM + KZG binding)",
+    "level_note": "partial: cryptographic binding (hash ROM, KZG) assumed; KNOWN FINDING (findings/C03.json): transcript_repr does not cover advice_column_phase when num_challenges = 0 "
+                  "(Debug for PinnedConstraintSystem prints it only with challenges) - two real circuits differing only in the phase of an unqueried advice column have the same "
+                  "transcript_repr while their verifiers read the advice commitments in different orders, and a proof for one is accepted under the key of the other when the "
+                  "unqueried column duplicates a queried unblinded column; injectivity of the Debug formatting of individual members not modelled; Guard::batch_verify and the "
+                  "aggregator (LightAggregator::aggregate_proofs / verify call prepare without assert_empty: trailing-bytes checks are the caller's) are swept / listed "
+                  "(Gen.otherPrepareCallers) but not modelled; the in-circuit path is not exercised by this check (C20)",
     "timeout": {"quick": 1500, "thorough": 10800, "search": 2400},
 }
